@@ -265,7 +265,7 @@ class Pvf(Cont):
     name, major = "pvf", 0x0E
     rates = [1, 2, 9, 10, 99, 100, 8000, 44100, 65536, 999999999, 1000000000, 2 ** 31 - 1]
     rewrites = True     # no length in the header, but header updates are accepted and must leave a valid file
-    kf_ids = ("KF-PVF-TINY-FILE",)      # KF-PVF-SHORT-HEADER is repaired: an 11-byte header with audio behind it must re-open exactly
+    kf_ids = ()      # KF-PVF-SHORT-HEADER and KF-PVF-TINY-FILE are repaired: the 11-byte header re-opens exactly, with or without audio behind it
 
     def channels(self, f):
         return [c for c in (1, 2, 3, 9, 10, 11) if c <= f.maxch]
@@ -281,18 +281,6 @@ class Pvf(Cont):
         if len(b) != len(t) + j.n * j.bw:
             out.append("file length %d, header %d + %d audio bytes" % (len(b), len(t), j.n * j.bw))
         return out
-
-    def known(self, j, frames_total, probs):
-        """KF-PVF-TINY-FILE: an image (closed file / header-update image) shorter than the 12 bytes the type detection reads - an
-        11-byte header with no audio behind it - cannot be opened.  Nothing else is waived."""
-        hl = len(self.text(j))
-        for p in probs:
-            if p.startswith("re-open of the closed file fails") and hl + j.n * j.bw < 12:
-                continue
-            if p.startswith("[C11] the image left by the header update cannot be opened") and hl + j.parts[0] * j.bw < 12:
-                continue
-            return None
-        return "KF-PVF-TINY-FILE" if probs else None
 
     def hdr_len(self, b):
         return b.index(b"\n", 5) + 1 if b"\n" in b[5:] else len(b)
